@@ -83,5 +83,7 @@ def notations_of(spec: dict) -> Dict[str, P.Notation]:
 
 
 def name_of(spec: dict) -> str:
+    if spec.get('label'):
+        return spec['label']
     bs = '+'.join(f"{b['auction'] if isinstance(b['auction'], str) else 'custom'}/{b['dealer']}/{b['vul']}" for b in spec['boards'])
     return bs + ('/seq' if spec.get('sequential') else '') + ('/linger' if spec.get('linger') else '') + (f"/frag-{spec['fragment']}" if spec.get('fragment') else '') + ('/existing-output' if spec.get('existing_output') else '') + ('/+second-table' if spec.get('second_table') else '') + ('/plain-seats' if spec.get('plain_seats') else '')
